@@ -172,3 +172,861 @@ Corollary evaluate_batch_invariant c bs bs' bm xs ts es :
 Proof. intros. unfold evaluate. rewrite (detailed_batch_invariant c bs bs') by assumption. reflexivity. Qed.
 
 End Main.
+
+(* ######## part 2 ######## *)
+(* ================================================================ the steps *)
+Lemma linspace_length m S : length (linspace_int m S) = S + 1.
+Proof. unfold linspace_int. rewrite map_length, seq_length. reflexivity. Qed.
+
+Lemma linspace_nth m S j : j <= S -> nth j (linspace_int m S) 0 = j * m / S.
+Proof. intro H. unfold linspace_int. apply (nth_map_seq (fun j => j * m / S)). lia. Qed.
+
+Lemma linspace_floor m S j : 1 <= S -> S * (j * m / S) <= j * m < S * (j * m / S + 1).
+Proof. intro HS. assert (S <> 0) by lia.
+  pose proof (Nat.div_mod (j * m) S H). pose proof (Nat.mod_upper_bound (j * m) S H). lia. Qed.
+
+Lemma linspace_first m S : hd 0 (linspace_int m S) = 0.
+Proof. unfold linspace_int. replace (S + 1) with (Datatypes.S S) by lia. cbn [seq map hd].
+  cbn [Nat.mul]. destruct S; reflexivity. Qed.
+
+Lemma last_map_seq {A} (f : nat -> A) n d : last (map f (seq 0 (n + 1))) d = f n.
+Proof. rewrite seq_app, map_app. cbn [seq map plus]. apply last_last. Qed.
+
+Lemma linspace_last m S : 1 <= S -> last (linspace_int m S) 0 = m.
+Proof. intro HS. unfold linspace_int. rewrite last_map_seq. rewrite Nat.mul_comm. apply Nat.div_mul. lia. Qed.
+
+Lemma div_mono_strict m S i j : 1 <= S -> S <= m -> i < j -> i * m / S < j * m / S.
+Proof.
+  intros HS Hm Hij. assert (H0 : S <> 0) by lia.
+  pose proof (Nat.div_mod (i * m) S H0). pose proof (Nat.mod_upper_bound (i * m) S H0).
+  pose proof (Nat.div_mod (j * m) S H0). pose proof (Nat.mod_upper_bound (j * m) S H0).
+  set (a := i * m / S) in *. set (b := j * m / S) in *.
+  assert (i * m + m <= j * m) by nia. nia.
+Qed.
+
+Lemma div_step_le1 m S j : 1 <= S -> m <= S -> j * m / S <= (j + 1) * m / S <= j * m / S + 1.
+Proof.
+  intros HS Hm. assert (H0 : S <> 0) by lia.
+  pose proof (Nat.div_mod (j * m) S H0). pose proof (Nat.mod_upper_bound (j * m) S H0).
+  pose proof (Nat.div_mod ((j + 1) * m) S H0). pose proof (Nat.mod_upper_bound ((j + 1) * m) S H0).
+  set (a := j * m / S) in *. set (b := (j + 1) * m / S) in *.
+  assert ((j + 1) * m = j * m + m) by lia. split; nia.
+Qed.
+
+Lemma linspace_nodup m S : 1 <= S -> S <= m -> NoDup (linspace_int m S).
+Proof.
+  intros HS Hm. unfold linspace_int. apply Injective_map_NoDup; [|apply seq_NoDup].
+  intros i j E. destruct (Nat.lt_trichotomy i j) as [L|[L|L]]; [|exact L|].
+  - pose proof (div_mono_strict m S i j HS Hm L). lia.
+  - pose proof (div_mono_strict m S j i HS Hm L). lia.
+Qed.
+
+Lemma fold_add_key_nodup l acc : NoDup (acc ++ l) -> fold_left add_key l acc = acc ++ l.
+Proof.
+  revert acc; induction l as [|k l IH]; intros acc H; cbn [fold_left]; [rewrite app_nil_r; reflexivity|].
+  assert (Hk : memb k acc = false).
+  { apply memb_false. intro Hin. apply NoDup_remove_2 in H. apply H. apply in_or_app. left; exact Hin. }
+  unfold add_key at 2. rewrite Hk. rewrite IH; rewrite <- app_assoc; [reflexivity | exact H].
+Qed.
+
+Lemma distinct_nodup l : NoDup l -> distinct_steps l = l.
+Proof. intro H. unfold distinct_steps. rewrite fold_add_key_nodup; [reflexivity | exact H]. Qed.
+
+Lemma distinct_slow (f : nat -> nat) n : f 0 = 0 -> (forall j, f j <= f (j + 1) <= f j + 1) ->
+  distinct_steps (map f (seq 0 (n + 1))) = seq 0 (f n + 1).
+Proof.
+  intros H0 Hs. unfold distinct_steps. induction n as [|n IH].
+  - cbn [plus seq map fold_left]. rewrite H0. reflexivity.
+  - replace (S n + 1) with (S (n + 1)) by lia. rewrite seq_S, map_app, fold_left_app, IH.
+    cbn [plus map fold_left]. unfold add_key.
+    specialize (Hs n). replace (S n) with (n + 1) by lia.
+    destruct (Nat.eq_dec (f (n + 1)) (f n)) as [E|E].
+    + rewrite E. replace (memb (f n) (seq 0 (f n + 1))) with true; [reflexivity|].
+      symmetry. apply memb_In. apply in_seq. lia.
+    + assert (E' : f (n + 1) = f n + 1) by lia. rewrite E'.
+      replace (memb (f n + 1) (seq 0 (f n + 1))) with false.
+      * replace (f n + 1 + 1) with (S (f n + 1)) by lia. rewrite seq_S. reflexivity.
+      * symmetry. apply memb_false. intro Hin. apply in_seq in Hin. lia.
+Qed.
+
+(* S <= max_nb: the S+1 steps are pairwise distinct, nothing collapses *)
+Lemma distinct_linspace_small m S : 1 <= S -> S <= m -> distinct_steps (linspace_int m S) = linspace_int m S.
+Proof. intros. apply distinct_nodup. apply linspace_nodup; assumption. Qed.
+
+(* S >= max_nb: duplicates collapse and every count 0..max_nb is visited *)
+Lemma distinct_linspace_big m S : 1 <= S -> m <= S -> distinct_steps (linspace_int m S) = seq 0 (m + 1).
+Proof.
+  intros HS Hm. unfold linspace_int. rewrite (distinct_slow (fun j => j * m / S)).
+  - rewrite (Nat.mul_comm S m), Nat.div_mul by lia. reflexivity.
+  - cbn [Nat.mul]. apply Nat.div_0_l. lia.
+  - intro j. apply div_step_le1; assumption.
+Qed.
+
+Lemma linspace_nodup_iff m S : 1 <= S -> (NoDup (linspace_int m S) <-> S <= m).
+Proof.
+  intro HS. split; [|apply linspace_nodup; exact HS].
+  intro H. destruct (le_lt_dec S m) as [L|L]; [exact L|]. exfalso.
+  pose proof (distinct_nodup _ H) as E. rewrite distinct_linspace_big in E by lia.
+  apply (f_equal (@length nat)) in E. rewrite seq_length, linspace_length in E. lia.
+Qed.
+Open Scope Qc_scope.
+(* ================================================================ trapezoid *)
+Lemma qn_neq0 n : n <> 0%nat -> qn n <> 0.
+Proof. intros Hn H. apply Qc_eq_iff in H. unfold qn in H. rewrite Qc_Q2Qc_q in H.
+  unfold Qeq in H. cbn in H. lia. Qed.
+
+Lemma half_inv_two : half = / two.
+Proof. apply Qc_is_canon. reflexivity. Qed.
+
+Lemma two_neq0 : two <> 0.
+Proof. intro H. apply Qc_eq_iff in H. discriminate H. Qed.
+
+Lemma pairs_sum v : v <> [] ->
+  qsum (map2 Qcplus (removelast v) (tl v)) = two * qsum v - hd 0 v - last v 0
+  /\ length (map2 Qcplus (removelast v) (tl v)) = (length v - 1)%nat.
+Proof.
+  induction v as [|a v IH]; [congruence|]. intros _. destruct v as [|b w].
+  - cbn [removelast tl map2 qsum hd last length]. split; [assert (E : two = 1 + 1) by (apply Qc_is_canon; reflexivity); rewrite E; ring | reflexivity].
+  - destruct IH as [IH1 IH2]; [discriminate|].
+    change (removelast (a :: b :: w)) with (a :: removelast (b :: w)).
+    change (tl (a :: b :: w)) with (b :: w). change (tl (b :: w)) with w in IH1, IH2.
+    cbn [map2 qsum length]. rewrite IH1. split.
+    + change (last (a :: b :: w) 0) with (last (b :: w) 0). cbn [hd qsum].
+      assert (E : two = 1 + 1) by (apply Qc_is_canon; reflexivity). rewrite E. ring.
+    + rewrite IH2. cbn [length]. lia.
+Qed.
+
+Theorem auc_trapezoid v : (2 <= length v)%nat -> auc_of v = trapezoid_mean v.
+Proof.
+  intro H. assert (Hne : v <> []) by (intro E; subst v; cbn [length] in H; lia).
+  destruct (pairs_sum v Hne) as [E1 E2]. unfold auc_of, trapezoid_mean, qmean. rewrite E1, E2.
+  rewrite half_inv_two. field. split; [apply two_neq0 | apply qn_neq0; lia].
+Qed.
+
+Lemma qsum_rev v : qsum (rev v) = qsum v.
+Proof. induction v as [|a v IH]; [reflexivity|]. cbn [rev]. rewrite qsum_app, IH. cbn [qsum]. ring. Qed.
+
+Lemma hd_rev {A} (l : list A) d : hd d (rev l) = last l d.
+Proof. induction l as [|a l IH]; [reflexivity|]. cbn [rev]. destruct l as [|b l]; [reflexivity|].
+  change (last (a :: b :: l) d) with (last (b :: l) d). rewrite <- IH.
+  cbn [rev]. destruct (rev l); reflexivity. Qed.
+
+Lemma last_rev {A} (l : list A) d : last (rev l) d = hd d l.
+Proof. rewrite <- (rev_involutive l) at 2. rewrite hd_rev. reflexivity. Qed.
+
+Lemma trapezoid_rev v : trapezoid_mean (rev v) = trapezoid_mean v.
+Proof. unfold trapezoid_mean. rewrite qsum_rev, hd_rev, last_rev, rev_length.
+  f_equal. f_equal. f_equal. ring. Qed.
+
+Lemma auc_rev v : auc_of (rev v) = auc_of v.
+Proof.
+  destruct (le_lt_dec 2 (length v)) as [H|H].
+  - rewrite !auc_trapezoid by (rewrite ?rev_length; exact H). apply trapezoid_rev.
+  - destruct v as [|a [|b w]]; [reflexivity | reflexivity | cbn [length] in H; lia].
+Qed.
+Close Scope Qc_scope.
+(* ================================================================ rankings *)
+Lemma SS_unique {A} (R : A -> A -> Prop) l l' :
+  (forall a b, In a l -> In b l -> R a b -> R b a -> a = b) ->
+  Permutation l l' -> StronglySorted R l -> StronglySorted R l' -> l = l'.
+Proof.
+  revert l'; induction l as [|a l IH]; intros l' Has P S1 S2.
+  - apply Permutation_nil in P. congruence.
+  - destruct l' as [|a' l'']; [apply Permutation_sym, Permutation_nil in P; discriminate|].
+    apply StronglySorted_inv in S1 as [S1 F1]. apply StronglySorted_inv in S2 as [S2 F2].
+    rewrite Forall_forall in F1, F2.
+    assert (E : a = a').
+    { assert (I1 : In a' (a :: l)) by (eapply Permutation_in; [apply Permutation_sym; exact P | left; reflexivity]).
+      assert (I2 : In a (a' :: l'')) by (eapply Permutation_in; [exact P | left; reflexivity]).
+      destruct I1 as [E|I1]; [exact E|]. destruct I2 as [E|I2]; [congruence|].
+      apply Has; [left; reflexivity | right; exact I1 | apply F1; exact I1 | apply F2; exact I2]. }
+    subst a'. f_equal. apply IH; [| eapply Permutation_cons_inv; exact P | exact S1 | exact S2].
+    intros x y Hx Hy. apply Has; right; assumption.
+Qed.
+
+Lemma SS_impl_in {A} (R R' : A -> A -> Prop) l :
+  (forall a b, In a l -> In b l -> R a b -> R' a b) -> StronglySorted R l -> StronglySorted R' l.
+Proof.
+  induction l as [|a l IH]; intros H S; [constructor|].
+  apply StronglySorted_inv in S as [S F]. constructor.
+  - apply IH; [|exact S]. intros x y Hx Hy. apply H; right; assumption.
+  - rewrite Forall_forall in *. intros x Hx. apply H; [left; reflexivity | right; exact Hx | apply F; exact Hx].
+Qed.
+
+Lemma SS_app {A} (R : A -> A -> Prop) l1 l2 :
+  StronglySorted R l1 -> StronglySorted R l2 -> (forall a b, In a l1 -> In b l2 -> R a b) ->
+  StronglySorted R (l1 ++ l2).
+Proof.
+  induction l1 as [|a l1 IH]; intros S1 S2 H; [exact S2|].
+  apply StronglySorted_inv in S1 as [S1 F1]. cbn [app]. constructor.
+  - apply IH; [exact S1 | exact S2 |]. intros x y Hx Hy. apply H; [right; exact Hx | exact Hy].
+  - rewrite Forall_forall in *. intros x Hx. apply in_app_or in Hx as [Hx|Hx]; [apply F1; exact Hx|].
+    apply H; [left; reflexivity | exact Hx].
+Qed.
+
+Lemma SS_rev {A} (R : A -> A -> Prop) l : StronglySorted R l -> StronglySorted (fun a b => R b a) (rev l).
+Proof.
+  induction l as [|a l IH]; intro S; [constructor|].
+  apply StronglySorted_inv in S as [S F]. cbn [rev]. apply SS_app; [apply IH; exact S | repeat constructor |].
+  intros x y Hx Hy. destruct Hy as [<-|[]]. rewrite Forall_forall in F. apply F. apply in_rev. exact Hx.
+Qed.
+
+Lemma ranking_in e r i : is_ranking e r -> In i r -> i < length e.
+Proof. intros [P _] Hi. eapply Permutation_in in Hi; [|exact P]. apply in_seq in Hi. lia. Qed.
+
+Lemma ranking_length e r : is_ranking e r -> length r = length e.
+Proof. intros [P _]. apply Permutation_length in P. rewrite seq_length in P. exact P. Qed.
+
+Lemma ranking_nodup e r : is_ranking e r -> NoDup r.
+Proof. intros [P _]. apply (Permutation_NoDup (Permutation_sym P)). apply seq_NoDup. Qed.
+
+Lemma ranking_covers e r i : is_ranking e r -> i < length e -> In i r.
+Proof. intros [P _] Hi. eapply Permutation_in; [apply Permutation_sym; exact P|]. apply in_seq. lia. Qed.
+
+(* on pairwise distinct values the sorting permutation is unique: tie-breaking is the only freedom of argsort *)
+Theorem ranking_unique e r r' : NoDup e -> is_ranking e r -> is_ranking e r' -> r = r'.
+Proof.
+  intros Hnd Hr Hr'. apply (SS_unique (by_value_desc e)).
+  - intros a b Ha Hb H1 H2. unfold by_value_desc in *.
+    apply (proj1 (NoDup_nth e 0%Qc) Hnd); [apply (ranking_in e r); assumption | apply (ranking_in e r); assumption|].
+    apply Qcle_antisym; assumption.
+  - destruct Hr as [P _], Hr' as [P' _]. eapply Permutation_trans; [exact P | apply Permutation_sym; exact P'].
+  - apply Hr.
+  - apply Hr'.
+Qed.
+
+(* a weakly increasing transformation keeps every ranking a ranking *)
+Lemma ranking_monotone (g : Qc -> Qc) e r : (forall a b, (a <= b)%Qc -> (g a <= g b)%Qc) ->
+  is_ranking e r -> is_ranking (map g e) r.
+Proof.
+  intros Hg Hr. split; [rewrite map_length; apply Hr|].
+  apply (SS_impl_in (by_value_desc e)); [|apply Hr].
+  intros a b Ha Hb H. unfold by_value_desc in *.
+  rewrite !(nthq_map g e 0%Qc) by (apply (ranking_in e r); assumption). apply Hg. exact H.
+Qed.
+
+(* negating the values reverses every ranking *)
+Lemma ranking_opp e r : is_ranking e r -> is_ranking (map Qcopp e) (rev r).
+Proof.
+  intro Hr. split.
+  - rewrite map_length. eapply Permutation_trans; [apply Permutation_sym, Permutation_rev | apply Hr].
+  - apply (SS_impl_in (fun a b => by_value_desc e b a)); [|apply SS_rev; apply Hr].
+    intros a b Ha Hb H. unfold by_value_desc in *. apply in_rev in Ha. apply in_rev in Hb.
+    rewrite !(nthq_map Qcopp e 0%Qc) by (apply (ranking_in e r); assumption).
+    apply Qcopp_le_compat. exact H.
+Qed.
+
+Definition strictly_increasing (g : Qc -> Qc) : Prop := forall a b, (a < b)%Qc -> (g a < g b)%Qc.
+
+Lemma strict_inj g : strictly_increasing g -> Injective g.
+Proof. intros Hg a b E. destruct (Qc_dec a b) as [[L|L]|L]; [| |exact L];
+  apply Hg in L; rewrite E in L; exfalso; exact (Qclt_not_eq _ _ L eq_refl). Qed.
+
+Lemma strict_mono g : strictly_increasing g -> forall a b, (a <= b)%Qc -> (g a <= g b)%Qc.
+Proof. intros Hg a b H. apply Qcle_lt_or_eq in H as [H| ->]; [apply Qclt_le_weak, Hg, H | apply Qcle_refl]. Qed.
+
+(* argsort(g(e)) = argsort(e) for strictly increasing g on pairwise distinct values, whatever the tie-breaking *)
+Theorem rank_strict_invariant rank g e : rank_ok rank -> strictly_increasing g -> NoDup e ->
+  rank (map g e) = rank e.
+Proof.
+  intros Hr Hg Hnd. apply (ranking_unique (map g e)).
+  - apply Injective_map_NoDup; [apply strict_inj; exact Hg | exact Hnd].
+  - apply Hr.
+  - apply ranking_monotone; [apply strict_mono; exact Hg | apply Hr].
+Qed.
+
+(* argsort(-e) = reverse of argsort(e) on pairwise distinct values *)
+Theorem rank_opp rank e : rank_ok rank -> NoDup e -> rank (map Qcopp e) = rev (rank e).
+Proof.
+  intros Hr Hnd. apply (ranking_unique (map Qcopp e)).
+  - apply Injective_map_NoDup; [|exact Hnd]. intros a b E.
+    rewrite <- (Qcopp_involutive a), <- (Qcopp_involutive b), E. reflexivity.
+  - apply Hr.
+  - apply ranking_opp. apply Hr.
+Qed.
+
+(* ================================================================ channel mean of the explanations *)
+Lemma chan_mean_spec c F e : 1 <= c -> length e = F * c -> chan_mean c e = map (feature_value c e) (seq 0 F).
+Proof. intros Hc He. unfold chan_mean. rewrite (chunks_as_seq c F e 0%Qc) by assumption.
+  rewrite map_map. reflexivity. Qed.
+
+Definition expl_ok (c : cfg) (es : list (list Qc)) : Prop :=
+  Forall (fun e => length e = cF c * match cEC c with Some ec => ec | None => 1 end) es.
+
+Lemma ranking_of_spec rank c es : cfg_ok c -> expl_ok c es ->
+  ranking_of rank c es = map rank (map (feature_values (cEC c) (cF c)) es).
+Proof.
+  intros [_ [_ Hec]] He. unfold ranking_of, feature_values, expl_ok in *. f_equal.
+  destruct (cEC c) as [ec|]; [|symmetry; apply map_id].
+  apply map_ext_in. intros e Hin. rewrite Forall_forall in He. apply chan_mean_spec; [exact Hec | apply He; exact Hin].
+Qed.
+
+Lemma feature_values_length c F e : length e = F * match c with Some ec => ec | None => 1 end ->
+  length (feature_values c F e) = F.
+Proof. destruct c; cbn [feature_values]; intro H; [rewrite map_length, seq_length; reflexivity | lia]. Qed.
+
+(* ================================================================ end points *)
+Lemma move_nil C x b : move C x b [] = x.
+Proof. unfold move. cbn [memb existsb]. symmetry. apply (list_as_seq x 0%Qc). Qed.
+
+Lemma move_all C F x b ids : 1 <= C -> length x = F * C -> length b = F * C -> (forall f, f < F -> In f ids) ->
+  move C x b ids = b.
+Proof.
+  intros HC Hx Hb Hall. unfold move.
+  transitivity (map (fun i => nth i b 0%Qc) (seq 0 (length b))); [|symmetry; apply list_as_seq]. rewrite Hx, Hb.
+  apply map_ext_in. intros k Hk. apply in_seq in Hk.
+  assert (Hf : k / C < F) by (apply Nat.div_lt_upper_bound; lia).
+  apply Hall, memb_In in Hf. rewrite Hf. reflexivity.
+Qed.
+
+Lemma map4_ext_in3 {A B C D E} (f g : A -> B -> C -> D -> E) a b c d :
+  (forall x y z w, In x a -> In y b -> In z c -> f x y z w = g x y z w) -> map4 f a b c d = map4 g a b c d.
+Proof. revert b c d; induction a as [|x a IH]; intros [|y b] [|z c] [|w d] H; cbn [map4]; try reflexivity.
+  f_equal; [apply H; left; reflexivity | apply IH; intros; apply H; right; assumption]. Qed.
+
+Lemma map4_map3 {A B C C' D E} (f : A -> B -> C' -> D -> E) (g : C -> C') a b c d :
+  map4 f a b (map g c) d = map4 (fun x y z w => f x y (g z) w) a b c d.
+Proof. revert b c d; induction a as [|x a IH]; intros [|y b] [|z c] [|w d]; cbn [map map4]; try reflexivity.
+  f_equal. apply IH. Qed.
+
+Section Curve.
+Variable score : list Qc -> list Qc -> Qc.
+
+(* the input a sample starts from / ends at *)
+Definition start_input {A} (md : cmode) (x b : A) : A := match md with Deletion => x | Insertion => b end.
+Definition end_input {A} (md : cmode) (x b : A) : A := match md with Deletion => b | Insertion => x end.
+
+(* step 0: nothing moved — the originals (Deletion) / the baselines (Insertion) *)
+Theorem curve_start md C xs bl rs ts :
+  curve score md C xs bl rs ts 0 = qmean (map4 (fun x b _ t => score (start_input md x b) t) xs bl rs ts).
+Proof. unfold curve. f_equal. apply map4_ext_in. intros x b r t _ _.
+  destruct md; cbn [point firstn start_input]; rewrite move_nil; reflexivity. Qed.
+
+(* every feature moved: the baselines (Deletion) / the originals (Insertion) *)
+Theorem curve_end md C F xs bl rs ts k : 1 <= C -> F <= k ->
+  Forall (fun x => length x = F * C) xs -> Forall (fun b => length b = F * C) bl ->
+  Forall (fun r => Permutation r (seq 0 F)) rs ->
+  curve score md C xs bl rs ts k = qmean (map4 (fun x b _ t => score (end_input md x b) t) xs bl rs ts).
+Proof.
+  intros HC Hk Hxs Hbl Hrs. unfold curve. f_equal. apply map4_ext_in3. intros x b r t Hx Hb Hr.
+  rewrite Forall_forall in Hxs, Hbl, Hrs. specialize (Hxs x Hx). specialize (Hbl b Hb). specialize (Hrs r Hr).
+  assert (Hl : length r = F) by (apply Permutation_length in Hrs; rewrite seq_length in Hrs; exact Hrs).
+  assert (Hall : forall f, f < F -> In f (firstn k r)).
+  { intros f Hf. rewrite firstn_all2 by lia. eapply Permutation_in; [apply Permutation_sym; exact Hrs|].
+    apply in_seq. lia. }
+  destruct md; cbn [point end_input]; rewrite (move_all C F) by assumption; reflexivity.
+Qed.
+
+(* ================================================================ duality *)
+Lemma nodup_app_disj {A} (l1 l2 : list A) a : NoDup (l1 ++ l2) -> In a l1 -> ~ In a l2.
+Proof. induction l1 as [|x l1 IH]; intros H H1 H2; [destruct H1|]. cbn [app] in H.
+  apply NoDup_cons_iff in H as [Hx H]. destruct H1 as [->|H1]; [|exact (IH H H1 H2)].
+  apply Hx. apply in_or_app. right; exact H2. Qed.
+
+Lemma firstn_rev_skipn {A} (r : list A) j : firstn (length r - j) (rev r) = rev (skipn j r).
+Proof.
+  rewrite <- (firstn_skipn j r) at 2. rewrite rev_app_distr.
+  rewrite <- (skipn_length j r), <- (rev_length (skipn j r)).
+  rewrite firstn_app, firstn_all, Nat.sub_diag. cbn [firstn]. apply app_nil_r.
+Qed.
+
+Lemma memb_complement F r j f : Permutation r (seq 0 F) -> f < F ->
+  memb f (firstn (F - j) (rev r)) = negb (memb f (firstn j r)).
+Proof.
+  intros P Hf.
+  assert (Hl : length r = F) by (apply Permutation_length in P; rewrite seq_length in P; exact P).
+  assert (Hnd : NoDup r) by (apply (Permutation_NoDup (Permutation_sym P)); apply seq_NoDup).
+  assert (Hin : In f r) by (eapply Permutation_in; [apply Permutation_sym; exact P | apply in_seq; lia]).
+  rewrite <- Hl, firstn_rev_skipn. rewrite <- (firstn_skipn j r) in Hnd, Hin.
+  destruct (memb f (firstn j r)) eqn:E1; destruct (memb f (rev (skipn j r))) eqn:E2; cbn [negb]; try reflexivity; exfalso.
+  - apply memb_In in E1. apply memb_In in E2. apply in_rev in E2. exact (nodup_app_disj _ _ _ Hnd E1 E2).
+  - apply memb_false in E1. apply memb_false in E2. apply in_app_or in Hin as [H|H]; [exact (E1 H)|].
+    apply E2. apply in_rev in H. exact H.
+Qed.
+
+Lemma move_dual C F x b r j : 1 <= C -> length x = F * C -> length b = F * C -> Permutation r (seq 0 F) ->
+  move C b x (firstn j r) = move C x b (firstn (F - j) (rev r)).
+Proof.
+  intros HC Hx Hb P. unfold move. rewrite Hx, Hb. apply map_ext_in. intros k Hk. apply in_seq in Hk.
+  assert (Hf : k / C < F) by (apply Nat.div_lt_upper_bound; lia).
+  rewrite (memb_complement F r j (k / C) P Hf). destruct (memb (k / C) (firstn j r)); reflexivity.
+Qed.
+
+(* as functions of the number of moved features: Insertion along r at j = Deletion along reversed r at F - j *)
+Theorem curve_duality C F xs bl rs ts j : 1 <= C ->
+  Forall (fun x => length x = F * C) xs -> Forall (fun b => length b = F * C) bl ->
+  Forall (fun r => Permutation r (seq 0 F)) rs ->
+  curve score Insertion C xs bl rs ts j = curve score Deletion C xs bl (map (@rev nat) rs) ts (F - j).
+Proof.
+  intros HC Hxs Hbl Hrs. unfold curve. f_equal. rewrite map4_map3. apply map4_ext_in3. intros x b r t Hx Hb Hr.
+  rewrite Forall_forall in Hxs, Hbl, Hrs. cbn [point]. rewrite (move_dual C F) by auto. reflexivity.
+Qed.
+End Curve.
+
+(* ================================================================ max_nb *)
+Lemma max_nb_full F : max_nb F 1%Qc = F.
+Proof.
+  unfold max_nb. rewrite Qcmult_1_r. unfold qn.
+  rewrite (Qfloor_comp _ (inject_Z (Z.of_nat F))) by apply Qc_Q2Qc_q.
+  rewrite Qfloor_Z. apply Nat2Z.id.
+Qed.
+
+Lemma max_nb_floor F pct : (0 <= pct)%Qc ->
+  (qn (max_nb F pct) <= qn F * pct)%Qc /\ (qn F * pct < qn (max_nb F pct) + 1)%Qc.
+Proof.
+  intro Hp. unfold max_nb. set (x := (qn F * pct)%Qc).
+  assert (Hx : (0 <= this x)%Q).
+  { unfold x. rewrite Qc_mult_q. apply Qmult_le_0_compat; [|exact Hp].
+    unfold qn. rewrite Qc_Q2Qc_q. unfold Qle. cbn. lia. }
+  assert (Hf : (0 <= Qfloor (this x))%Z).
+  { change 0%Z with (Qfloor 0). apply Qfloor_resp_le. exact Hx. }
+  assert (E : (this (qn (Z.to_nat (Qfloor (this x)))) == inject_Z (Qfloor (this x)))%Q).
+  { unfold qn. rewrite Qc_Q2Qc_q, Z2Nat.id by exact Hf. reflexivity. }
+  split.
+  - change (this (qn (Z.to_nat (Qfloor (this x)))) <= this x)%Q. rewrite E. apply Qfloor_le.
+  - change (this x < this (qn (Z.to_nat (Qfloor (this x))) + 1)%Qc)%Q. rewrite Qc_plus_q, E.
+    pose proof (Qlt_floor (this x)) as L. rewrite inject_Z_plus in L. exact L.
+Qed.
+
+Lemma eff_steps_pos c : steps_ok c -> 1 <= eff_steps (cSteps c) (max_nb (cF c) (cPct c)).
+Proof.
+  unfold steps_ok, eff_steps. intros [[E H]|H].
+  - rewrite E. cbn [Z.eqb]. exact H.
+  - replace (cSteps c =? -1)%Z with false by (symmetry; apply Z.eqb_neq; lia). lia.
+Qed.
+
+(* ================================================================ the steps of a configuration *)
+Lemma distinct_steps_shape m St : 1 <= St ->
+  exists mid, distinct_steps (linspace_int m St) = 0 :: mid /\ last (0 :: mid) 0 = m.
+Proof.
+  intro HS. destruct (le_lt_dec St m) as [L|L].
+  - rewrite distinct_linspace_small by assumption.
+    pose proof (linspace_last m St HS) as E. pose proof (linspace_first m St) as E0.
+    destruct (linspace_int m St) as [|a mid] eqn:El.
+    + apply (f_equal (@length nat)) in El. rewrite linspace_length in El. cbn [length] in El. lia.
+    + cbn [hd] in E0. subst a. exists mid. split; [reflexivity | exact E].
+  - rewrite distinct_linspace_big by lia. exists (seq 1 m). split.
+    + replace (m + 1) with (S m) by lia. reflexivity.
+    + change (0 :: seq 1 m) with (seq 0 (S m)). rewrite seq_S. apply last_last.
+Qed.
+
+Lemma last_map_cons {A B} (f : A -> B) a l d d' : last (map f (a :: l)) d' = f (last (a :: l) d).
+Proof. revert a; induction l as [|b l IH]; intro a; [reflexivity|].
+  change (last (map f (a :: b :: l)) d') with (last (map f (b :: l)) d').
+  change (last (a :: b :: l) d) with (last (b :: l) d). apply IH. Qed.
+
+Theorem steps_spaced_all c : steps_ok c ->
+  let m := max_nb (cF c) (cPct c) in
+  let S := eff_steps (cSteps c) m in
+  1 <= S /\ length (steps_of c) = S + 1 /\
+  (forall j, j <= S -> nth j (steps_of c) 0 = j * m / S /\
+                       S * nth j (steps_of c) 0 <= j * m < S * (nth j (steps_of c) 0 + 1)) /\
+  hd 0 (steps_of c) = 0 /\ last (steps_of c) 0 = m /\
+  (NoDup (steps_of c) <-> S <= m) /\
+  (S <= m -> distinct_steps (steps_of c) = steps_of c) /\
+  (m <= S -> distinct_steps (steps_of c) = seq 0 (m + 1)).
+Proof.
+  intros Hs m S. pose proof (eff_steps_pos c Hs) as HS. fold m in HS. fold S in HS.
+  unfold steps_of. fold m. fold S. repeat split.
+  - exact HS.
+  - apply linspace_length.
+  - apply linspace_nth; assumption.
+  - rewrite linspace_nth by assumption. apply linspace_floor; exact HS.
+  - rewrite linspace_nth by assumption. apply linspace_floor; exact HS.
+  - apply linspace_first.
+  - apply linspace_last; exact HS.
+  - apply linspace_nodup_iff; exact HS.
+  - apply linspace_nodup_iff; exact HS.
+  - intro; apply distinct_linspace_small; assumption.
+  - intro; apply distinct_linspace_big; assumption.
+Qed.
+
+(* ================================================================ top-level statements *)
+Definition set_mode (md : cmode) (c : cfg) : cfg :=
+  {| cF := cF c; cC := cC c; cEC := cEC c; cSteps := cSteps c; cPct := cPct c; cMode := md |}.
+
+Definition spec_rankings (rank : list Qc -> list nat) (c : cfg) (es : list (list Qc)) : list (list nat) :=
+  map rank (map (feature_values (cEC c) (cF c)) es).
+
+Section Top.
+Variable score : list Qc -> list Qc -> Qc.
+Variable rank : list Qc -> list nat.
+
+Theorem causal_curve_correct c bs bm xs ts es :
+  cfg_ok c -> bs_ok bs -> sizes_ok c xs (baselines_of bm xs) -> expl_ok c es ->
+  detailed_evaluate score rank c bs bm xs ts es
+  = map (fun k => (k, curve score (cMode c) (cC c) xs (baselines_of bm xs) (spec_rankings rank c es) ts k))
+        (distinct_steps (steps_of c)).
+Proof.
+  intros Hc Hbs Hsz He. rewrite detailed_correct; [| apply Hc | exact Hbs | exact Hsz].
+  rewrite ranking_of_spec by assumption. reflexivity.
+Qed.
+
+(* only the ranking matters *)
+Theorem same_ranking_same_result c bs bm xs ts es es' :
+  ranking_of rank c es = ranking_of rank c es' ->
+  detailed_evaluate score rank c bs bm xs ts es = detailed_evaluate score rank c bs bm xs ts es' /\
+  evaluate score rank c bs bm xs ts es = evaluate score rank c bs bm xs ts es'.
+Proof. intro H. unfold evaluate, detailed_evaluate. rewrite H. split; reflexivity. Qed.
+
+Theorem ranking_only g c bs bm xs ts es :
+  rank_ok rank -> strictly_increasing g -> cEC c = None -> Forall (@NoDup Qc) es ->
+  detailed_evaluate score rank c bs bm xs ts (map (map g) es) = detailed_evaluate score rank c bs bm xs ts es /\
+  evaluate score rank c bs bm xs ts (map (map g) es) = evaluate score rank c bs bm xs ts es.
+Proof.
+  intros Hr Hg Hec Hnd. apply same_ranking_same_result. unfold ranking_of. rewrite Hec.
+  rewrite map_map. apply map_ext_in. intros e He. rewrite Forall_forall in Hnd.
+  apply rank_strict_invariant; auto.
+Qed.
+
+Lemma spec_rankings_perm c es : rank_ok rank -> expl_ok c es ->
+  Forall (fun r => Permutation r (seq 0 (cF c))) (spec_rankings rank c es).
+Proof.
+  intros Hr He. unfold spec_rankings. rewrite map_map. apply Forall_forall. intros r Hin.
+  apply in_map_iff in Hin as [e [<- Hin]]. unfold expl_ok in He. rewrite Forall_forall in He.
+  destruct (Hr (feature_values (cEC c) (cF c) e)) as [P _].
+  rewrite feature_values_length in P by (apply He; exact Hin). exact P.
+Qed.
+
+Lemma map4_proj1 {A B C D E} (f : A -> D -> E) (a : list A) (b : list B) (c : list C) (d : list D) :
+  length b = length a -> length c = length a ->
+  map4 (fun x _ _ t => f x t) a b c d = map2 f a d.
+Proof. revert b c d; induction a as [|x a IH]; intros [|y b] [|z c] [|w d] H1 H2; cbn [length] in *; try lia; try reflexivity.
+  cbn [map4 map2]. f_equal. apply IH; lia. Qed.
+
+Lemma map4_proj2 {A B C D E} (f : B -> D -> E) (a : list A) (b : list B) (c : list C) (d : list D) :
+  length b = length a -> length c = length a ->
+  map4 (fun _ y _ t => f y t) a b c d = map2 f b d.
+Proof. revert b c d; induction a as [|x a IH]; intros [|y b] [|z c] [|w d] H1 H2; cbn [length] in *; try lia; try reflexivity.
+  cbn [map4 map2]. f_equal. apply IH; lia. Qed.
+
+(* the first entry is (0, mean score of the originals / of the baselines),
+   the last entry is (max_nb, .) and, when max_nb = nb_features, the mean score of the baselines / originals *)
+Theorem endpoints c bs bm xs ts es :
+  cfg_ok c -> bs_ok bs -> sizes_ok c xs (baselines_of bm xs) -> expl_ok c es -> rank_ok rank ->
+  length (baselines_of bm xs) = length xs -> length es = length xs ->
+  let d := detailed_evaluate score rank c bs bm xs ts es in
+  let m := max_nb (cF c) (cPct c) in
+  nth 0 d (0, 0%Qc) = (0, qmean (map2 score (start_input (cMode c) xs (baselines_of bm xs)) ts)) /\
+  fst (last d (0, 0%Qc)) = m /\
+  (m = cF c -> snd (last d (0, 0%Qc)) = qmean (map2 score (end_input (cMode c) xs (baselines_of bm xs)) ts)).
+Proof.
+  intros Hc Hbs Hsz He Hr Lb Le d m. unfold d. rewrite causal_curve_correct by assumption.
+  destruct Hc as [HC [Hs Hec]]. pose proof (eff_steps_pos c Hs) as HS.
+  unfold steps_of. fold m. fold m in HS.
+  destruct (distinct_steps_shape m _ HS) as [mid [-> Hl]].
+  set (rs := spec_rankings rank c es).
+  assert (Lr : length rs = length xs) by (unfold rs, spec_rankings; rewrite !map_length; exact Le).
+  set (v := fun k => (k, curve score (cMode c) (cC c) xs (baselines_of bm xs) rs ts k)).
+  rewrite (last_map_cons v 0 mid 0), Hl. cbn [map nth]. unfold v. cbn [fst snd].
+  split; [|split; [reflexivity|]].
+  - f_equal. rewrite curve_start. f_equal.
+    destruct (cMode c); cbn [start_input]; [apply map4_proj1 | apply map4_proj2]; assumption.
+  - intro Em. destruct Hsz as [Hxs Hbl].
+    rewrite (curve_end score (cMode c) (cC c) (cF c)); try assumption; [| lia | apply spec_rankings_perm; assumption].
+    f_equal. destruct (cMode c); cbn [end_input]; [apply map4_proj2 | apply map4_proj1]; assumption.
+Qed.
+End Top.
+
+(* ================================================================ duality, top level *)
+Lemma nthq_map_opp e k : nthq (map Qcopp e) k = (- nthq e k)%Qc.
+Proof. unfold nthq. change 0%Qc with (Qcopp 0%Qc) at 1. apply map_nth. Qed.
+
+Lemma qsum_map_opp {A} (f : A -> Qc) l : qsum (map (fun x => (- f x)%Qc) l) = (- qsum (map f l))%Qc.
+Proof. induction l as [|a l IH]; cbn [map qsum]; [ring | rewrite IH; ring]. Qed.
+
+Lemma feature_values_opp ec F e :
+  feature_values ec F (map Qcopp e) = map Qcopp (feature_values ec F e).
+Proof.
+  destruct ec as [c|]; cbn [feature_values]; [|reflexivity]. rewrite map_map. apply map_ext. intro f.
+  unfold feature_value. rewrite (map_ext _ (fun j => (- nthq e (f * c + j))%Qc)) by (intro; apply nthq_map_opp).
+  rewrite qsum_map_opp. unfold Qcdiv. ring.
+Qed.
+
+Definition values_distinct (c : cfg) (es : list (list Qc)) : Prop :=
+  Forall (fun e => NoDup (feature_values (cEC c) (cF c) e)) es.
+
+Lemma expl_ok_opp c es : expl_ok c es -> expl_ok c (map (map Qcopp) es).
+Proof. unfold expl_ok. intro H. apply Forall_forall. intros e Hin. apply in_map_iff in Hin as [e' [<- Hin]].
+  rewrite map_length. rewrite Forall_forall in H. apply H; exact Hin. Qed.
+
+Section Duality.
+Variable score : list Qc -> list Qc -> Qc.
+Variable rank : list Qc -> list nat.
+
+Lemma spec_rankings_opp c es : rank_ok rank -> values_distinct c es ->
+  spec_rankings rank c (map (map Qcopp) es) = map (@rev nat) (spec_rankings rank c es).
+Proof.
+  intros Hr Hd. unfold spec_rankings. rewrite !map_map. apply map_ext_in. intros e Hin.
+  unfold values_distinct in Hd. rewrite Forall_forall in Hd.
+  rewrite feature_values_opp. apply rank_opp; [exact Hr | apply Hd; exact Hin].
+Qed.
+
+(* Insertion(e) after restoring j features = Deletion(-e) after deleting F - j features, for every j *)
+Theorem insertion_deletion_duality c bm xs ts es j :
+  cfg_ok c -> sizes_ok c xs (baselines_of bm xs) -> expl_ok c es -> rank_ok rank -> values_distinct c es ->
+  curve score Insertion (cC c) xs (baselines_of bm xs) (spec_rankings rank c es) ts j
+  = curve score Deletion (cC c) xs (baselines_of bm xs) (spec_rankings rank c (map (map Qcopp) es)) ts (cF c - j).
+Proof.
+  intros [HC _] [Hxs Hbl] He Hr Hd. rewrite spec_rankings_opp by assumption.
+  apply curve_duality; try assumption. apply spec_rankings_perm; assumption.
+Qed.
+
+Lemma rev_map_seq {A} (f : nat -> A) n : rev (map f (seq 0 (n + 1))) = map (fun k => f (n - k)) (seq 0 (n + 1)).
+Proof.
+  induction n as [|n IH]; [reflexivity|].
+  replace (S n + 1) with (S (n + 1)) by lia. rewrite seq_S at 1. rewrite map_app, rev_app_distr.
+  cbn [plus map rev app]. rewrite IH. cbn [seq map]. f_equal; [try (f_equal; lia)|].
+  rewrite <- !seq_shift, !map_map. apply map_ext_in. intros k Hk. apply in_seq in Hk. reflexivity.
+Qed.
+
+(* on the step grid, when it visits every count 0..F (max_nb = F and steps = -1 or steps >= F):
+   the Insertion curve of e is the Deletion curve of -e read backwards, and the two metrics coincide *)
+Theorem duality_on_grid c bs bm xs ts es :
+  cfg_ok c -> bs_ok bs -> sizes_ok c xs (baselines_of bm xs) -> expl_ok c es -> rank_ok rank -> values_distinct c es ->
+  max_nb (cF c) (cPct c) = cF c -> cF c <= eff_steps (cSteps c) (cF c) ->
+  let dI := detailed_evaluate score rank (set_mode Insertion c) bs bm xs ts es in
+  let dD := detailed_evaluate score rank (set_mode Deletion c) bs bm xs ts (map (map Qcopp) es) in
+  map fst dI = seq 0 (cF c + 1) /\ map fst dD = seq 0 (cF c + 1) /\
+  map snd dI = rev (map snd dD) /\
+  evaluate score rank (set_mode Insertion c) bs bm xs ts es
+  = evaluate score rank (set_mode Deletion c) bs bm xs ts (map (map Qcopp) es).
+Proof.
+  intros Hc Hbs Hsz He Hr Hd Hm HS dI dD.
+  assert (HcI : cfg_ok (set_mode Insertion c)) by exact Hc.
+  assert (HcD : cfg_ok (set_mode Deletion c)) by exact Hc.
+  assert (EI : dI = map (fun k => (k, curve score Insertion (cC c) xs (baselines_of bm xs) (spec_rankings rank c es) ts k))
+                        (seq 0 (cF c + 1))).
+  { unfold dI. rewrite causal_curve_correct; try assumption.
+    unfold steps_of. cbn [set_mode cF cPct cSteps cMode cC]. rewrite Hm.
+    rewrite distinct_linspace_big; [reflexivity | | exact HS].
+    destruct Hc as [_ [Hs _]]. apply eff_steps_pos in Hs. rewrite Hm in Hs. exact Hs. }
+  assert (ED : dD = map (fun k => (k, curve score Deletion (cC c) xs (baselines_of bm xs)
+                                         (spec_rankings rank c (map (map Qcopp) es)) ts k)) (seq 0 (cF c + 1))).
+  { unfold dD. rewrite causal_curve_correct; try assumption; [| apply expl_ok_opp; exact He].
+    unfold steps_of. cbn [set_mode cF cPct cSteps cMode cC]. rewrite Hm.
+    rewrite distinct_linspace_big; [reflexivity | | exact HS].
+    destruct Hc as [_ [Hs _]]. apply eff_steps_pos in Hs. rewrite Hm in Hs. exact Hs. }
+  assert (Esnd : map snd dI = rev (map snd dD)).
+  { rewrite EI, ED, !map_map. cbn [snd]. rewrite rev_map_seq. apply map_ext_in. intros k Hk.
+    apply insertion_deletion_duality; assumption. }
+  split; [rewrite EI, map_map; cbn [fst]; apply map_id|].
+  split; [rewrite ED, map_map; cbn [fst]; apply map_id|].
+  split; [exact Esnd|].
+  unfold evaluate. fold dI. fold dD. rewrite Esnd. apply auc_rev.
+Qed.
+End Duality.
+
+(* ######## part 3 ######## *)
+(* ================================================================ batch invariance, packaged *)
+Theorem causal_batch_invariant (score : list Qc -> list Qc -> Qc) (rank : list Qc -> list nat) c bs bs' bm xs ts es :
+  1 <= cC c -> bs_ok bs -> bs_ok bs' -> sizes_ok c xs (baselines_of bm xs) ->
+  detailed_evaluate score rank c bs bm xs ts es = detailed_evaluate score rank c bs' bm xs ts es /\
+  evaluate score rank c bs bm xs ts es = evaluate score rank c bs' bm xs ts es.
+Proof. intros. split; [apply detailed_batch_invariant | apply evaluate_batch_invariant]; assumption. Qed.
+
+(* ================================================================ the concrete argsort meets the contract *)
+Definition pair_desc (p1 p2 : nat * Qc) : Prop := (snd p2 <= snd p1)%Qc.
+
+Lemma ins_desc_perm p l : Permutation (ins_desc p l) (p :: l).
+Proof. induction l as [|p' l IH]; cbn [ins_desc]; [apply Permutation_refl|].
+  destruct (Qcltb (snd p') (snd p)); [apply Permutation_refl|].
+  eapply Permutation_trans; [apply perm_skip; exact IH | apply perm_swap]. Qed.
+
+Lemma ins_desc_sorted p l : StronglySorted pair_desc l -> StronglySorted pair_desc (ins_desc p l).
+Proof.
+  induction l as [|p' l IH]; intro S; cbn [ins_desc]; [repeat constructor|].
+  pose proof S as S0. apply StronglySorted_inv in S as [S F]. rewrite Forall_forall in F.
+  destruct (Qcltb (snd p') (snd p)) eqn:E.
+  - apply Qcltb_lt in E. constructor; [exact S0|]. apply Forall_forall. intros x [<-|Hx].
+    + unfold pair_desc. apply Qclt_le_weak. exact E.
+    + unfold pair_desc in *. eapply Qcle_trans; [apply F; exact Hx | apply Qclt_le_weak; exact E].
+  - assert (L : (snd p <= snd p')%Qc).
+    { destruct (Qclt_le_dec (snd p') (snd p)) as [H|H]; [|exact H]. apply Qcltb_lt in H. congruence. }
+    constructor; [apply IH; exact S|]. apply Forall_forall. intros x Hx.
+    eapply Permutation_in in Hx; [|apply ins_desc_perm]. destruct Hx as [<-|Hx]; [exact L | apply F; exact Hx].
+Qed.
+
+Lemma fold_ins_perm l acc : Permutation (fold_left (fun a p => ins_desc p a) l acc) (l ++ acc).
+Proof. revert acc; induction l as [|p l IH]; intro acc; cbn [fold_left app]; [apply Permutation_refl|].
+  eapply Permutation_trans; [apply IH|]. eapply Permutation_trans; [apply Permutation_app_head, ins_desc_perm|].
+  apply Permutation_sym, Permutation_middle. Qed.
+
+Lemma fold_ins_sorted l acc : StronglySorted pair_desc acc ->
+  StronglySorted pair_desc (fold_left (fun a p => ins_desc p a) l acc).
+Proof. revert acc; induction l as [|p l IH]; intros acc S; cbn [fold_left]; [exact S|].
+  apply IH, ins_desc_sorted, S. Qed.
+
+Lemma map_fst_combine {A B} (l1 : list A) (l2 : list B) : length l1 = length l2 -> map fst (combine l1 l2) = l1.
+Proof. revert l2; induction l1 as [|a l1 IH]; intros [|b l2] H; cbn [length] in *; try lia; [reflexivity|].
+  cbn [combine map fst]. f_equal. apply IH. lia. Qed.
+
+Lemma in_combine_seq_nth e i v : In (i, v) (combine (seq 0 (length e)) e) -> v = nthq e i.
+Proof.
+  intro H. apply (In_nth _ _ (0, 0%Qc)) in H as [k [Hk E]].
+  rewrite combine_length, seq_length, Nat.min_id in Hk.
+  rewrite combine_nth in E by (rewrite seq_length; reflexivity).
+  rewrite seq_nth in E by exact Hk. cbn [plus] in E. injection E as <- <-. reflexivity.
+Qed.
+
+Theorem rank_insertion_ok : rank_ok rank_insertion.
+Proof.
+  intro e. unfold rank_insertion.
+  set (res := fold_left (fun a p => ins_desc p a) (combine (seq 0 (length e)) e) []).
+  assert (P : Permutation res (combine (seq 0 (length e)) e)).
+  { unfold res. eapply Permutation_trans; [apply fold_ins_perm|]. rewrite app_nil_r. apply Permutation_refl. }
+  assert (S : StronglySorted pair_desc res) by (apply fold_ins_sorted; constructor).
+  split.
+  - rewrite <- (map_fst_combine (seq 0 (length e)) e) at 1 by (rewrite seq_length; reflexivity).
+    apply Permutation_map. exact P.
+  - assert (Hv : forall p, In p res -> snd p = nthq e (fst p)).
+    { intros [i v] Hp. eapply Permutation_in in Hp; [|exact P]. apply in_combine_seq_nth in Hp. exact Hp. }
+    clear P. induction S as [|p l S IH F]; cbn [map]; constructor.
+    + apply IH. intros; apply Hv; right; assumption.
+    + rewrite Forall_forall in *. intros j Hj. apply in_map_iff in Hj as [p' [<- Hp']].
+      unfold by_value_desc. rewrite <- (Hv p) by (left; reflexivity). rewrite <- (Hv p') by (right; exact Hp').
+      apply F. exact Hp'.
+Qed.
+
+(* ================================================================ the k top-ranked features carry the largest sum *)
+Open Scope Qc_scope.
+
+Lemma qsum_perm {A} (f : A -> Qc) l l' : Permutation l l' -> qsum (map f l) = qsum (map f l').
+Proof. induction 1; cbn [map qsum]; [reflexivity | rewrite IHPermutation; reflexivity | ring | congruence]. Qed.
+
+Lemma qsum_filter_split {A} (f : A -> Qc) (p : A -> bool) l :
+  qsum (map f l) = qsum (map f (filter p l)) + qsum (map f (filter (fun x => negb (p x)) l)).
+Proof. induction l as [|a l IH]; cbn [map filter qsum]; [ring|].
+  destruct (p a); cbn [negb map qsum]; rewrite IH; ring. Qed.
+
+Lemma filter_split_length {A} (p : A -> bool) l :
+  (length (filter p l) + length (filter (fun x => negb (p x)) l) = length l)%nat.
+Proof. induction l as [|a l IH]; cbn [filter length]; [reflexivity|].
+  destruct (p a); cbn [negb length]; lia. Qed.
+
+Lemma qsum_dominated {A} (f : A -> Qc) l1 l2 : length l1 = length l2 ->
+  (forall x y, In x l1 -> In y l2 -> f x <= f y) -> qsum (map f l1) <= qsum (map f l2).
+Proof.
+  revert l2; induction l1 as [|x l1 IH]; intros [|y l2] Hl H; cbn [length] in Hl; try lia; cbn [map qsum].
+  - apply Qcle_refl.
+  - apply Qcplus_le_compat; [apply H; left; reflexivity|].
+    apply IH; [lia|]. intros; apply H; right; assumption.
+Qed.
+
+Lemma SS_app_inv {A} (R : A -> A -> Prop) l1 l2 : StronglySorted R (l1 ++ l2) ->
+  forall a b, In a l1 -> In b l2 -> R a b.
+Proof. induction l1 as [|x l1 IH]; intros S a b Ha Hb; [destruct Ha|]. cbn [app] in S.
+  apply StronglySorted_inv in S as [S F]. destruct Ha as [<-|Ha]; [|exact (IH S a b Ha Hb)].
+  rewrite Forall_forall in F. apply F. apply in_or_app. right; exact Hb. Qed.
+
+Theorem topk_sum_optimal a r s k : is_ranking a r -> NoDup s -> (forall f, In f s -> (f < length a)%nat) ->
+  length s = k -> (k <= length a)%nat ->
+  qsum (map (nthq a) s) <= qsum (map (nthq a) (firstn k r)).
+Proof.
+  intros Hr Hnd Hlt Hlen Hk.
+  set (top := firstn k r). set (rest := skipn k r).
+  assert (Er : r = top ++ rest) by (symmetry; apply firstn_skipn).
+  assert (Lr : length r = length a) by (apply ranking_length; exact Hr).
+  assert (Ltop : length top = k) by (unfold top; rewrite firstn_length; lia).
+  assert (NDr : NoDup r) by (eapply ranking_nodup; exact Hr).
+  assert (NDtop : NoDup top).
+  { rewrite Er in NDr. clear -NDr. induction top as [|x t IH]; [constructor|]. cbn [app] in NDr.
+    apply NoDup_cons_iff in NDr as [Hx ND]. constructor; [|apply IH; exact ND].
+    intro H. apply Hx. apply in_or_app. left; exact H. }
+  rewrite (qsum_filter_split (nthq a) (fun f => memb f top) s).
+  rewrite (qsum_filter_split (nthq a) (fun f => memb f s) top).
+  assert (P : Permutation (filter (fun f => memb f top) s) (filter (fun f => memb f s) top)).
+  { apply NoDup_Permutation; [apply NoDup_filter; exact Hnd | apply NoDup_filter; exact NDtop|].
+    intro x. rewrite !filter_In, !memb_In. tauto. }
+  rewrite (qsum_perm (nthq a) _ _ P). apply Qcplus_le_compat; [apply Qcle_refl|].
+  apply qsum_dominated.
+  - pose proof (filter_split_length (fun f => memb f top) s).
+    pose proof (filter_split_length (fun f => memb f s) top).
+    apply Permutation_length in P. lia.
+  - intros x y Hx Hy. apply filter_In in Hx as [Hxs Hxt]. apply filter_In in Hy as [Hyt _].
+    apply negb_true_iff, memb_false in Hxt.
+    assert (Hxr : In x rest).
+    { assert (In x r) by (eapply ranking_covers; [exact Hr | apply Hlt; exact Hxs]).
+      rewrite Er in H. apply in_app_or in H as [H|H]; [contradiction | exact H]. }
+    destruct Hr as [_ S]. rewrite Er in S. exact (SS_app_inv _ _ _ S y x Hyt Hxr).
+Qed.
+Close Scope Qc_scope.
+
+(* ================================================================ additive models *)
+Lemma feat_row_move C F x b A f : 1 <= C -> length x = F * C -> f < F ->
+  feat_row C (move C x b A) f = if memb f A then feat_row C b f else feat_row C x f.
+Proof.
+  intros HC Hx Hf. unfold feat_row.
+  transitivity (map (fun j => if memb f A then nthq b (f * C + j) else nthq x (f * C + j)) (seq 0 C));
+    [|destruct (memb f A); reflexivity].
+  apply map_ext_in. intros j Hj. apply in_seq in Hj. unfold move, nthq at 1.
+  rewrite nth_map_seq by (rewrite Hx; nia).
+  replace ((f * C + j) / C) with f; [reflexivity|].
+  rewrite Nat.div_add_l by lia. rewrite Nat.div_small by lia. lia.
+Qed.
+
+Open Scope Qc_scope.
+Lemma sum_move_split (u v : nat -> Qc) r k F : Permutation r (seq 0 F) ->
+  qsum (map (fun f => if memb f (firstn k r) then u f else v f) (seq 0 F))
+  = qsum (map u (firstn k r)) + qsum (map v (skipn k r)).
+Proof.
+  intro P. rewrite <- (qsum_perm _ _ _ P). rewrite <- (firstn_skipn k r) at 1. rewrite map_app, qsum_app.
+  assert (ND : NoDup (firstn k r ++ skipn k r)).
+  { rewrite firstn_skipn. apply (Permutation_NoDup (Permutation_sym P)). apply seq_NoDup. }
+  f_equal; apply qsum_map_ext; intros f Hf.
+  - apply memb_In in Hf. rewrite Hf. reflexivity.
+  - replace (memb f (firstn k r)) with false; [reflexivity|]. symmetry. apply memb_false.
+    intro H. exact (nodup_app_disj _ _ _ ND H Hf).
+Qed.
+
+Lemma qsum_map_sub {A} (f g : A -> Qc) l : qsum (map (fun x => f x - g x) l) = qsum (map f l) - qsum (map g l).
+Proof. induction l as [|a l IH]; cbn [map qsum]; [ring | rewrite IH; ring]. Qed.
+
+Lemma additive_move contrib c0 C F x b r k : (1 <= C)%nat -> length x = (F * C)%nat -> Permutation r (seq 0 F) ->
+  additive_score contrib c0 C F (move C x b (firstn k r))
+  = additive_score contrib c0 C F x
+    - qsum (map (fun f => contrib f (feat_row C x f) - contrib f (feat_row C b f)) (firstn k r)).
+Proof.
+  intros HC Hx P. unfold additive_score.
+  rewrite (qsum_map_ext _ (fun f => if memb f (firstn k r) then contrib f (feat_row C b f) else contrib f (feat_row C x f))).
+  2:{ intros f Hf. apply in_seq in Hf. rewrite (feat_row_move C F) by (auto; lia). destruct (memb f (firstn k r)); reflexivity. }
+  rewrite (sum_move_split _ _ r k F P).
+  rewrite <- (qsum_perm (fun f => contrib f (feat_row C x f)) _ _ P).
+  rewrite <- (firstn_skipn k r) at 3. rewrite map_app, qsum_app, qsum_map_sub. ring.
+Qed.
+
+Theorem additive_optimal (contrib : nat -> list Qc -> Qc) (c0 : Qc) C F x b r r' k :
+  (1 <= C)%nat -> length x = (F * C)%nat -> length b = (F * C)%nat ->
+  is_ranking (exact_attr contrib C F x b) r -> Permutation r' (seq 0 F) -> (k <= F)%nat ->
+  additive_score contrib c0 C F (move C x b (firstn k r)) <= additive_score contrib c0 C F (move C x b (firstn k r')) /\
+  additive_score contrib c0 C F (move C b x (firstn k r')) <= additive_score contrib c0 C F (move C b x (firstn k r)).
+Proof.
+  intros HC Hx Hb Hr P' Hk.
+  assert (La : length (exact_attr contrib C F x b) = F) by (unfold exact_attr; rewrite map_length, seq_length; reflexivity).
+  assert (P : Permutation r (seq 0 F)) by (destruct Hr as [P _]; rewrite La in P; exact P).
+  set (D := fun f => contrib f (feat_row C x f) - contrib f (feat_row C b f)).
+  assert (Ea : forall l, (forall f, In f l -> (f < F)%nat) ->
+            qsum (map (nthq (exact_attr contrib C F x b)) l) = qsum (map D l)).
+  { intros l Hl. apply qsum_map_ext. intros f Hf. unfold exact_attr.
+    rewrite (nthq_map _ _ 0%nat) by (rewrite seq_length; apply Hl; exact Hf).
+    rewrite seq_nth by (apply Hl; exact Hf). reflexivity. }
+  assert (In_lt : forall q, Permutation q (seq 0 F) -> forall f, In f (firstn k q) -> (f < F)%nat).
+  { intros q Pq f Hf. assert (In f q) by (rewrite <- (firstn_skipn k q); apply in_or_app; left; exact Hf).
+    eapply Permutation_in in H; [|exact Pq]. apply in_seq in H. lia. }
+  assert (Key : qsum (map D (firstn k r')) <= qsum (map D (firstn k r))).
+  { rewrite <- !Ea by (apply In_lt; assumption).
+    apply topk_sum_optimal; [exact Hr | | | | ].
+    - assert (ND : NoDup r') by (apply (Permutation_NoDup (Permutation_sym P')); apply seq_NoDup).
+      rewrite <- (firstn_skipn k r') in ND. clear -ND. induction (firstn k r') as [|a l IH]; [constructor|].
+      cbn [app] in ND. apply NoDup_cons_iff in ND as [Ha ND]. constructor; [|apply IH; exact ND].
+      intro H. apply Ha. apply in_or_app. left; exact H.
+    - rewrite La. apply In_lt; exact P'.
+    - rewrite firstn_length. apply Permutation_length in P'. rewrite seq_length in P'. lia.
+    - rewrite La. exact Hk. }
+  rewrite !(additive_move contrib c0 C F) by assumption. fold D.
+  assert (ED : forall l, qsum (map (fun f => contrib f (feat_row C b f) - contrib f (feat_row C x f)) l) = - qsum (map D l)).
+  { intro l. unfold D. rewrite !qsum_map_sub. ring. }
+  rewrite !ED. split.
+  - apply Qcplus_le_compat; [apply Qcle_refl | apply Qcopp_le_compat; exact Key].
+  - unfold Qcminus. rewrite !Qcopp_involutive. apply Qcplus_le_compat; [apply Qcle_refl | exact Key].
+Qed.
